@@ -7,6 +7,33 @@ adding a term is silent, dropping or swapping one is reported.
 from .mir import const_int, op_place
 from .panic import BodyIndex
 
+# the program being analysed (set by the check driver): lets a derivation inside a closure continue, at a captured
+# variable, in the function that built the closure
+PROG = None
+_PARENT_CACHE = {}
+
+
+def _capture_operand(body, k):
+    """(index of the parent body, operand captured as upvar k of this closure body) or None."""
+    if PROG is None or body.j.get("kind") != "Closure":
+        return None
+    key = (id(PROG), body.name)
+    if key not in _PARENT_CACHE:
+        par_name = body.name.rsplit("::{closure", 1)[0]
+        found = None
+        par = PROG.body(par_name) if par_name in PROG.raw_bodies else None
+        if par is not None:
+            for _bi, _si, st in par.stmts():
+                rv = st.get("rv") or {}
+                if st["k"] == "assign" and rv.get("k") == "agg" and rv.get("ak") == "closure" and rv.get("closure") == body.name:
+                    found = (BodyIndex(par), rv["ops"])
+                    break
+        _PARENT_CACHE[key] = found
+    got = _PARENT_CACHE[key]
+    if got is None or k >= len(got[1]):
+        return None
+    return got[0], got[1][k]
+
 
 class Derive:
     def __init__(self):
@@ -20,6 +47,8 @@ class Derive:
         self.skip_index = False
         self.paths = set()  # field paths of the places read, e.g. ("position", "#0")
         self.strs = set()  # string literals reaching the value (arguments of the calls it is computed from)
+        self.outer_params = set()  # parameters of the enclosing function reached through captured variables
+        self.captures = set()  # captured variables (upvar positions) of the closure the value is computed from
 
     def __repr__(self):
         return f"Derive(fields={sorted(self.names)}, calls={sorted(c.split('::')[-1] for c in self.calls)}, consts={sorted(self.consts)}, ops={sorted(self.ops)})"
@@ -39,6 +68,35 @@ def _place(d, p, ix, depth):
             else:
                 _op(d, inner, ix, depth + 1)
             return
+    # a captured variable of a closure: continue in the function that built the closure
+    if p["l"] == 1 and ix.body.j.get("kind") == "Closure" and depth < 30:
+        prj = [pr for pr in p["p"] if pr != "*"]
+        if prj and isinstance(prj[0], dict) and "f" in prj[0] and "n" not in prj[0]:
+            cap = _capture_operand(ix.body, prj[0]["f"])
+            if cap is not None:
+                pix, cop = cap
+                d.captures.add(prj[0]["f"])
+                sub = Derive()
+                sub.skip_index = d.skip_index
+                q = op_place(cop)
+                if q is not None:
+                    # the rest of the projection (fields read off the captured value) applies to the captured place;
+                    # a capture by reference adds one dereference
+                    _place(sub, {"l": q["l"], "p": list(q["p"]) + [x for x in prj[1:]], "ty": p.get("ty", "")}, pix, depth + 1)
+                else:
+                    _op(sub, cop, pix, depth + 1)
+                d.fields |= sub.fields
+                d.names |= sub.names
+                d.calls |= sub.calls
+                d.consts |= sub.consts
+                d.ops |= sub.ops
+                d.strs |= sub.strs
+                d.paths |= sub.paths
+                d.outer_params |= sub.params | sub.outer_params
+                # the environment slot itself is accounted for by what it holds; the closure's environment parameter
+                # stays in `params` (rules ask "is this a captured value" that way)
+                _local(d, p["l"], ix, depth + 1)
+                return
     path = tuple((pr.get("n") if "n" in pr else f"#{pr['f']}") for pr in p["p"] if isinstance(pr, dict) and "f" in pr)
     if path:
         d.paths.add(path)
